@@ -412,6 +412,9 @@ func worker(sh *ev.Shard) {
 			sh.Cur("config", cfg.String())
 			mk := mkHarness(cfg, use, d, pl.maxLive, &calls)
 			st := vsync.Explore(vsync.Config{Deviations: pl.dev}, mk)
+			if st.Diverged > 0 {
+				sh.Count("replay_diverged", st.Diverged)
+			}
 			sh.Count("traces", st.Execs)
 			sh.Count("transitions", st.Execs*int64(d))
 			sh.Count("states", st.Execs)
